@@ -90,30 +90,52 @@ def _gen_bits(rng, tier):
         yield {"bits": rand_bytes(rng, 3) + bytes([rng.randrange(0, 40)])}
 
 
-# Core: SetCompact.  Sign bit set (mantissa >= 0x800000) means a negative number there; the contract is
-# stated for non-negative, non-overflowing compact values (every nBits a valid header can carry).
-contract("buidl.helper.bits_to_target", props=P, params={"bits": "bytes:4"},
-         requires=["not spec.spv.compact_negative(spec.int_le(bits))",
-                   "not spec.spv.compact_overflow(spec.int_le(bits))"],
-         ensures=["returns()",
-                  "isinstance(result, int)",
-                  "result == spec.spv.compact_to_target(spec.int_le(bits))"],
-         gen=_gen_bits)
+class ValueOf:
+    """input `name` is the value of the contract-language expression `expr` over ghosts/params"""
+
+    def __init__(self, expr, name):
+        self.expr, self.name = expr, name
+
+    def __call__(self, m, env):
+        fr = Frame(dict(env, spec=REG.spec_module), REG.spec_globals)
+        env[self.name] = m.eval_spec(self.expr, fr)
+
+    def conc(self, env, glob):
+        code, _ = rt.compile_clause(self.expr)
+        env[self.name] = eval(code, glob, env)
 
 
 def _gen_bits_exp(rng, tier):
     for e in _EXPS:
         for mnt in _MANTS:
             yield {"mantissa3": mnt.to_bytes(3, "little"), "exponent": e}
+    while True:
+        yield {"mantissa3": rand_bytes(rng, 3), "exponent": rng.randrange(0, 40)}
 
 
-contract("verif.harness.spv.bits_to_target_exp", props=P,
-         params={"mantissa3": "bytes:3", "exponent": ("choice", list(range(0, 35)))},
-         requires=["spec.int_le(mantissa3) < 0x800000",
-                   "not spec.spv.compact_overflow(spec.int_le(mantissa3) + exponent * 2**24)"],
-         ensures=["returns()", "isinstance(result, int)",
-                  "result == spec.spv.compact_to_target(spec.int_le(mantissa3) + exponent * 2**24)"],
+# Core: SetCompact.  Sign bit set (mantissa >= 0x800000) means a negative number there; the contract is
+# stated for non-negative, non-overflowing compact values (every nBits a valid header can carry).
+# bits = mantissa(3 bytes LE) || exponent; the exponent byte is forked over its values 0..35 (36..255
+# overflow for every non-zero mantissa; covered concretely)
+_COMPACT = "spec.int_le(mantissa3) + exponent * 2**24"
+contract("buidl.helper.bits_to_target", props=P,
+         ghost={"mantissa3": "bytes:3", "exponent": ("choice", list(range(0, 36)))},
+         setup=ValueOf("mantissa3 + bytes([exponent])", "bits"), args=["bits"],
+         requires=["not spec.spv.compact_negative(%s)" % _COMPACT,
+                   "not spec.spv.compact_overflow(%s)" % _COMPACT],
+         ensures=["returns()",
+                  "isinstance(result, int)",
+                  "result == spec.spv.compact_to_target(%s)" % _COMPACT],
          gen=_gen_bits_exp)
+
+# the same function with all four bytes symbolic: concrete (bounded companion) only -- symbolically the
+# engine forks 4094 ways on `256 ** (bits[-1] - 3)` (240 s) and its counter-models do not replay
+contract("buidl.helper.bits_to_target#bytes4", props=P, params={"bits": "bytes:4"},
+         requires=["not spec.spv.compact_negative(spec.int_le(bits))",
+                   "not spec.spv.compact_overflow(spec.int_le(bits))"],
+         ensures=["returns()", "isinstance(result, int)",
+                  "result == spec.spv.compact_to_target(spec.int_le(bits))"],
+         tiers=(), gen=_gen_bits)
 
 
 def _gen_targets(rng, tier):
@@ -126,16 +148,39 @@ def _gen_targets(rng, tier):
         yield {"target": rng.getrandbits(k)}
 
 
-contract("buidl.helper.target_to_bits", props=P, params={"target": ("int", 0, 2**256 - 1)},
-         ensures=["returns()", "len(result) == 4",
-                  "result == spec.spv.target_to_compact_bytes(target)"],
-         gen=_gen_targets)
+# one contract per number of significant bytes of the target (33 classes partition [0, 2**256)): neither the
+# lstrip loop of the code nor the digit-count loop of the spec has to be decided symbolically, and the
+# classes run in parallel.  Classes 4..13 need more than the quick-tier solver budget: thorough only.
+def _gen_targets_class(nb):
+    def gen(rng, tier):
+        if nb == 0:
+            yield {"target": 0}
+            return
+        lo, hi = 256 ** (nb - 1), 256 ** nb
+        for t in (lo, lo + 1, hi - 1, hi // 2 - 1, hi // 2, hi // 2 + 1, (0x7fffff << 8 * nb) >> 24, (0x800000 << 8 * nb) >> 24,
+                  (0xffff << 8 * nb) >> 16, (0x7f << 8 * nb) >> 8, (0x80 << 8 * nb) >> 8):
+            if lo <= t < hi:
+                yield {"target": t}
+        for _ in range(40):
+            yield {"target": rng.randrange(lo, hi)}
+    return gen
 
-# round trip through the real pair on every compact value GetCompact can produce
-contract("buidl.helper.target_to_bits#roundtrip", props=P, params={"target": ("int", 0, 2**256 - 1)},
-         ensures=["returns()",
-                  "spec.spv.compact_to_target(spec.int_le(result)) == spec.spv.compact_to_target(spec.spv.target_to_compact(target))"],
-         gen=_gen_targets)
+
+for _nb in range(0, 33):
+    contract("buidl.helper.target_to_bits#n%d" % _nb, props=P, params={"target": ("int", 0, 2**256 - 1)},
+             requires=["target == 0" if _nb == 0 else "256 ** %d <= target < 256 ** %d" % (_nb - 1, _nb)],
+             ensures=["returns()", "len(result) == 4",
+                      "result == spec.spv.target_to_compact_bytes(target)",
+                      # decoding the produced bits gives the target truncated to its leading bytes, exactly as
+                      # SetCompact(GetCompact(t))
+                      "spec.spv.compact_to_target(spec.int_le(result)) == spec.spv.compact_to_target(spec.spv.target_to_compact(target))"],
+             tiers=("thorough",) if 4 <= _nb <= 13 else ("quick", "thorough"),
+             gen=_gen_targets_class(_nb))
+
+# all classes at once: concrete (bounded companion) only -- the symbolic work is done by the 33 contracts above
+contract("buidl.helper.target_to_bits", props=P, params={"target": ("int", 0, 2**256 - 1)},
+         ensures=["returns()", "len(result) == 4", "result == spec.spv.target_to_compact_bytes(target)"],
+         tiers=(), gen=_gen_targets)
 
 _TW = 14 * 24 * 3600
 
